@@ -1041,6 +1041,11 @@ def m_bytes_hex(eng, st, recv, args, kwargs):
 def m_bytes_join(eng, st, recv, args, kwargs):
     sep = simp(recv.e)
     items = args[0]
+    if isinstance(items, VUnion):
+        out = []
+        for s2, it in eng.split_union(items, st):
+            out.extend(m_bytes_join(eng, s2, recv, [it], kwargs))
+        return out
     io = heap_obj(st, items)
     if io is not None and io.kind == "slist":
         from .heapmodel import joinb_f
@@ -1170,6 +1175,17 @@ BUF_METHODS = {"append": m_buf_append, "extend": m_buf_extend}
 
 def m_dict_get(eng, st, recv, args, kwargs):
     o = st.heap[recv.oid]
+    k0 = args[0]
+    if isinstance(k0, VFunc) and k0.kind in ("typeof", "symcls") and o.f["items"] and all(isinstance(k, VClass) for k, _ in o.f["items"].values()):
+        # lookup by a symbolic class: the entry whose key is that class, else the default
+        code = _class_key_of(k0)
+        default = args[1] if len(args) > 1 else VNone
+        alts, none_of = [], []
+        for k, v in o.f["items"].values():
+            alts.append((code == cls_code(k.py), v))
+            none_of.append(code != cls_code(k.py))
+        alts.append((z3.And(*none_of), default))
+        return ok(st, mk_union(alts))
     kr = key_repr(eng, st, args[0])
     if kr in o.f["items"]:
         return ok(st, o.f["items"][kr][1])
@@ -1248,6 +1264,10 @@ def m_slist_append(eng, st, recv, args, kwargs):
     if o.f["elem"].head == "bytes":
         st.fact(joinb_f(new) == z3.Concat(joinb_f(old), x))      # definition of join, instantiated here
     o.f["e"] = new
+    bk = o.f.get("__backing__")
+    if bk is not None:          # this list object is the value stored in a symbolic map: the map sees the mutation
+        mo = st.heap[bk[0]]
+        mo.f["val"] = z3.Store(mo.f["val"], bk[1], new)
     return ok(st, VNone)
 
 
